@@ -2,8 +2,13 @@
 (* C14 -- concurrent renders are isolated and race-free (process-level model).
 
    Goroutines G render M components each, at the same time.  What they share:
-     * the runtime buffer pool (sync.Pool as a bag: Get returns any pooled object or a new one, Put adds);
-       GetBuffer = Get + Reset(w), ReleaseBuffer = Flush + Put  (runtime/bufferpool.go),
+     * pools of per-render scratch objects.  A sync.Pool is a BAG of objects of one kind: Get returns any pooled
+       object or a new one, Put adds one (an object that is Put twice is in the bag twice).  Two kinds are modelled:
+         "buf"      the runtime buffer of a render: GetBuffer = Get + Reset(w), ReleaseBuffer = Flush + Put
+                    (runtime/bufferpool.go); held for the whole render,
+         "scratch"  any pooled object that one step of a render fills, reads back into its output and releases
+                    (the bytes.Buffer of templ.ToGoHTML / the buffered handler; a pooled class-name processor,
+                    string builder, ...): Get, Add own data, Read (the result goes into the document), Clear + Put,
      * the development-mode literal cache: watchStateMutex, watchModeCache (cached?, modTime, strings),
        os.Stat, reload (runtime/watchmode.go: getWatchedStrings / cacheStrings),
      * the once-handle id counter (once.go: atomic.AddInt64).
@@ -15,19 +20,27 @@
      "putfirst"       ReleaseBuffer puts the buffer into the pool before flushing it
      "noreset"        GetBuffer does not Reset a pooled buffer
      "cacheunlocked"  getWatchedStrings reads the cache map before taking the mutex
-     "idrace"         the once-handle id is read and written in two steps                          *)
+     "idrace"         the once-handle id is read and written in two steps
+     "doubleput"      a scratch object is released twice for one Get (by the step and by its caller)        *)
 EXTENDS Integers, Sequences, FiniteSets, TLC, RenderPoolOps
 
-CONSTANTS G, M, DocLen, NBuf, FailAt, DevMode, MaxVer, Bug
+CONSTANTS G, M, DocLen, NBuf, FailAt, DevMode, MaxVer, Bug,
+          Scratch     \* TRUE: every render has one step that uses a pooled scratch object
 
 Render == G \X (1..M)
 Bufs == 1..NBuf
+\* pooled objects of both kinds: <<"buf", id>> and <<"scratch", id>>
+Obj == ({"buf"} \X Bufs) \cup ({"scratch"} \X Bufs)
+BufObj(b) == <<"buf", b>>
+ScrObj(b) == <<"scratch", b>>
 
 VARIABLES pc,        \* per goroutine
           m,         \* per goroutine: index of the render in progress
           i,         \* per goroutine: next literal
           held,      \* per goroutine: buffer object its render uses (0 = none)
-          holders, pooled, made,   \* pool protocol state (RenderPoolOps); made = objects created so far
+          holders, pooled, made,   \* pool protocol state (RenderPoolOps): holding relation over Obj, the bag [Obj -> count],
+                                   \* made = runtime buffers created so far
+          sheld, smade, scr,       \* scratch kind: per goroutine the object in use (0 = none), objects created, per object its content
           buf,       \* per buffer object: [data, w]  data = tokens buffered, w = render whose writer it points at
           sink,      \* per render: tokens its writer received
           res,       \* per render: "run" | "nil" | "err"
@@ -38,16 +51,18 @@ VARIABLES pc,        \* per goroutine
           lit,       \* per goroutine: version of the literal list it got from getWatchedStrings
           nextid, ids, tmpid       \* once-handle ids: counter, ids handed out (bag as sequence), per-goroutine read
 
-vars == <<pc, m, i, held, holders, pooled, made, buf, sink, res, mutex, cache, file, inmap, lit, nextid, ids, tmpid>>
+vars == <<pc, m, i, held, holders, pooled, made, sheld, smade, scr, buf, sink, res, mutex, cache, file, inmap, lit, nextid, ids, tmpid>>
 
 R(g) == <<g, m[g]>>
-Doc(r) == [k \in 1..DocLen |-> <<r[1], r[2], k>>]          \* tokens without the version
+\* tokens without the 4th component (literal: file version; scratch step 0: the data read back from the object)
+Doc(r) == (IF Scratch THEN << <<r[1], r[2], 0>> >> ELSE <<>>) \o [k \in 1..DocLen |-> <<r[1], r[2], k>>]
 Strip(s) == [k \in 1..Len(s) |-> <<s[k][1], s[k][2], s[k][3]>>]
 NoR == <<0, 0>>
 
 Init == /\ pc = [g \in G |-> "id"] /\ m = [g \in G |-> 1] /\ i = [g \in G |-> 1]
         /\ held = [g \in G |-> 0]
-        /\ holders = {} /\ pooled = {} /\ made = 0
+        /\ holders = {} /\ pooled = [o \in Obj |-> 0] /\ made = 0
+        /\ sheld = [g \in G |-> 0] /\ smade = 0 /\ scr = [b \in Bufs |-> {}]
         /\ buf = [b \in Bufs |-> [data |-> <<>>, w |-> NoR]]
         /\ sink = [r \in Render |-> <<>>] /\ res = [r \in Render |-> "run"]
         /\ mutex = 0 /\ cache = [cached |-> FALSE, ver |-> 0] /\ file = 1 /\ inmap = {}
@@ -60,24 +75,24 @@ Goto(g, l) == pc' = [pc EXCEPT ![g] = l]
 NewHandle(g) ==
     /\ pc[g] = "id"
     /\ IF Bug = "idrace"
-       THEN /\ tmpid' = [tmpid EXCEPT ![g] = nextid] /\ Goto(g, "id2") /\ UNCHANGED <<nextid, ids>>
+       THEN /\ tmpid' = [tmpid EXCEPT ![g] = nextid] /\ Goto(g, "id2") /\ UNCHANGED <<sheld, smade, scr, nextid, ids>>
        ELSE /\ nextid' = nextid + 1 /\ ids' = Append(ids, nextid + 1) /\ Goto(g, "get") /\ UNCHANGED tmpid
-    /\ UNCHANGED <<m, i, held, holders, pooled, made, buf, sink, res, mutex, cache, file, inmap, lit>>
+    /\ UNCHANGED <<sheld, smade, scr, m, i, held, holders, pooled, made, buf, sink, res, mutex, cache, file, inmap, lit>>
 NewHandle2(g) ==
     /\ pc[g] = "id2"
     /\ nextid' = tmpid[g] + 1 /\ ids' = Append(ids, tmpid[g] + 1) /\ Goto(g, "get")
-    /\ UNCHANGED <<m, i, held, holders, pooled, made, buf, sink, res, mutex, cache, file, inmap, lit, tmpid>>
+    /\ UNCHANGED <<sheld, smade, scr, m, i, held, holders, pooled, made, buf, sink, res, mutex, cache, file, inmap, lit, tmpid>>
 
 \* b = bufferPool.Get().(*Buffer)
 Get(g) ==
     /\ pc[g] = "get"
-    /\ \E b \in pooled \cup (IF made < NBuf THEN {made + 1} ELSE {}) :
+    /\ \E b \in {x \in Bufs : pooled[BufObj(x)] > 0} \cup (IF made < NBuf THEN {made + 1} ELSE {}) :
           /\ held' = [held EXCEPT ![g] = b]
-          /\ holders' = HGet(holders, R(g), b)
-          /\ pooled' = PGet(pooled, b)
-          /\ made' = IF b = made + 1 THEN made + 1 ELSE made
+          /\ holders' = HGet(holders, R(g), BufObj(b))
+          /\ pooled' = IF pooled[BufObj(b)] > 0 THEN BGet(pooled, BufObj(b)) ELSE pooled
+          /\ made' = IF pooled[BufObj(b)] = 0 THEN made + 1 ELSE made
     /\ Goto(g, "reset")
-    /\ UNCHANGED <<m, i, buf, sink, res, mutex, cache, file, inmap, lit, nextid, ids, tmpid>>
+    /\ UNCHANGED <<sheld, smade, scr, m, i, buf, sink, res, mutex, cache, file, inmap, lit, nextid, ids, tmpid>>
 
 \* b.Reset(w)
 Reset(g) ==
@@ -85,8 +100,53 @@ Reset(g) ==
     /\ buf' = IF Bug = "noreset" /\ buf[held[g]].w # NoR THEN buf
               ELSE [buf EXCEPT ![held[g]] = [data |-> <<>>, w |-> R(g)]]
     /\ i' = [i EXCEPT ![g] = 1]
+    /\ Goto(g, IF Scratch THEN "sget" ELSE IF DevMode THEN "lock" ELSE "write")
+    /\ UNCHANGED <<sheld, smade, scr, m, held, holders, pooled, made, sink, res, mutex, cache, file, inmap, lit, nextid, ids, tmpid>>
+
+(* a step of the render that works in a pooled scratch object *)
+\* o = pool.Get()
+SGet(g) ==
+    /\ pc[g] = "sget"
+    /\ \E b \in {x \in Bufs : pooled[ScrObj(x)] > 0} \cup (IF smade < NBuf THEN {smade + 1} ELSE {}) :
+          /\ sheld' = [sheld EXCEPT ![g] = b]
+          /\ holders' = HGet(holders, R(g), ScrObj(b))
+          /\ pooled' = IF pooled[ScrObj(b)] > 0 THEN BGet(pooled, ScrObj(b)) ELSE pooled
+          /\ smade' = IF pooled[ScrObj(b)] = 0 THEN smade + 1 ELSE smade
+    /\ Goto(g, "sadd")
+    /\ UNCHANGED <<scr, m, i, held, made, buf, sink, res, mutex, cache, file, inmap, lit, nextid, ids, tmpid>>
+
+\* the render puts its own data into the object (class names, rendered bytes, ...)
+SAdd(g) ==
+    /\ pc[g] = "sadd"
+    /\ scr' = [scr EXCEPT ![sheld[g]] = @ \cup {R(g)}]
+    /\ Goto(g, "sread")
+    /\ UNCHANGED <<sheld, smade, m, i, held, holders, pooled, made, buf, sink, res, mutex, cache, file, inmap, lit, nextid, ids, tmpid>>
+
+\* ... and reads the result back into its document
+SRead(g) ==
+    /\ pc[g] = "sread"
+    /\ buf' = [buf EXCEPT ![held[g]].data = Append(@, <<g, m[g], 0, scr[sheld[g]]>>)]
+    /\ Goto(g, "sput")
+    /\ UNCHANGED <<sheld, smade, scr, m, i, held, holders, pooled, made, sink, res, mutex, cache, file, inmap, lit, nextid, ids, tmpid>>
+
+\* release: clear the object and Put it; the render does not touch it afterwards
+SPut(g) ==
+    /\ pc[g] = "sput"
+    /\ scr' = [scr EXCEPT ![sheld[g]] = {}]
+    /\ pooled' = BPut(pooled, ScrObj(sheld[g]))
+    /\ holders' = HDrop(holders, R(g), ScrObj(sheld[g]))
+    /\ IF Bug = "doubleput" THEN Goto(g, "sput2") /\ UNCHANGED sheld
+                            ELSE Goto(g, IF DevMode THEN "lock" ELSE "write") /\ sheld' = [sheld EXCEPT ![g] = 0]
+    /\ UNCHANGED <<smade, m, i, held, made, buf, sink, res, mutex, cache, file, inmap, lit, nextid, ids, tmpid>>
+
+\* "doubleput": the caller's deferred release clears and Puts the same object once more
+SPut2(g) ==
+    /\ pc[g] = "sput2"
+    /\ scr' = [scr EXCEPT ![sheld[g]] = {}]
+    /\ pooled' = BPut(pooled, ScrObj(sheld[g]))
+    /\ sheld' = [sheld EXCEPT ![g] = 0]
     /\ Goto(g, IF DevMode THEN "lock" ELSE "write")
-    /\ UNCHANGED <<m, held, holders, pooled, made, sink, res, mutex, cache, file, inmap, lit, nextid, ids, tmpid>>
+    /\ UNCHANGED <<smade, m, i, held, holders, made, buf, sink, res, mutex, cache, file, inmap, lit, nextid, ids, tmpid>>
 
 (* development mode: runtime.WriteString -> getWatchedStrings(txtFilePath) *)
 CacheLock(g) ==
@@ -94,40 +154,40 @@ CacheLock(g) ==
     /\ IF Bug = "cacheunlocked"
        THEN Goto(g, "lookup") /\ UNCHANGED mutex            \* fast path reads the map before locking
        ELSE mutex = 0 /\ mutex' = g /\ Goto(g, "lookup")
-    /\ UNCHANGED <<m, i, held, holders, pooled, made, buf, sink, res, cache, file, inmap, lit, nextid, ids, tmpid>>
+    /\ UNCHANGED <<sheld, smade, scr, m, i, held, holders, pooled, made, buf, sink, res, cache, file, inmap, lit, nextid, ids, tmpid>>
 
 \* state, cached := watchModeCache[txtFilePath]  ... begins touching the map
 CacheLookup(g) ==
     /\ pc[g] = "lookup"
     /\ inmap' = inmap \cup {g}
     /\ Goto(g, "decide")
-    /\ UNCHANGED <<m, i, held, holders, pooled, made, buf, sink, res, mutex, cache, file, lit, nextid, ids, tmpid>>
+    /\ UNCHANGED <<sheld, smade, scr, m, i, held, holders, pooled, made, buf, sink, res, mutex, cache, file, lit, nextid, ids, tmpid>>
 
 \* hit (fresh enough / not modified): return state.strings; miss or modified: cacheStrings writes the map
 CacheDecide(g) ==
     /\ pc[g] = "decide"
     /\ \/ /\ cache.cached                                   \* time.Since(modTime) < 100ms, or ModTime not after
-          /\ lit' = [lit EXCEPT ![g] = cache.ver] /\ UNCHANGED <<cache, mutex>>
+          /\ lit' = [lit EXCEPT ![g] = cache.ver] /\ UNCHANGED <<sheld, smade, scr, cache, mutex>>
        \/ /\ ~cache.cached \/ file > cache.ver              \* cacheStrings: read the file, store it
           /\ (Bug = "cacheunlocked") => (mutex = 0 \/ mutex = g)
           /\ cache' = [cached |-> TRUE, ver |-> file]
           /\ lit' = [lit EXCEPT ![g] = file]
           /\ mutex' = IF Bug = "cacheunlocked" THEN g ELSE mutex
     /\ Goto(g, "unlock")
-    /\ UNCHANGED <<m, i, held, holders, pooled, made, buf, sink, res, file, inmap, nextid, ids, tmpid>>
+    /\ UNCHANGED <<sheld, smade, scr, m, i, held, holders, pooled, made, buf, sink, res, file, inmap, nextid, ids, tmpid>>
 
 CacheUnlock(g) ==
     /\ pc[g] = "unlock"
     /\ inmap' = inmap \ {g}
     /\ mutex' = IF mutex = g THEN 0 ELSE mutex
     /\ Goto(g, "write")
-    /\ UNCHANGED <<m, i, held, holders, pooled, made, buf, sink, res, cache, file, lit, nextid, ids, tmpid>>
+    /\ UNCHANGED <<sheld, smade, scr, m, i, held, holders, pooled, made, buf, sink, res, cache, file, lit, nextid, ids, tmpid>>
 
 \* `templ generate --watch` rewrites the literal file
 FileWrite ==
     /\ DevMode /\ file < MaxVer
     /\ file' = file + 1
-    /\ UNCHANGED <<pc, m, i, held, holders, pooled, made, buf, sink, res, mutex, cache, inmap, lit, nextid, ids, tmpid>>
+    /\ UNCHANGED <<sheld, smade, scr, pc, m, i, held, holders, pooled, made, buf, sink, res, mutex, cache, inmap, lit, nextid, ids, tmpid>>
 
 \* io.WriteString(buffer, literal i): buffered in the render's buffer object
 Write(g) ==
@@ -135,7 +195,7 @@ Write(g) ==
     /\ buf' = [buf EXCEPT ![held[g]].data = Append(@, <<g, m[g], i[g], lit[g]>>)]
     /\ i' = [i EXCEPT ![g] = @ + 1]
     /\ Goto(g, IF i[g] = DocLen THEN "release" ELSE IF DevMode THEN "lock" ELSE "write")
-    /\ UNCHANGED <<m, held, holders, pooled, made, sink, res, mutex, cache, file, inmap, lit, nextid, ids, tmpid>>
+    /\ UNCHANGED <<sheld, smade, scr, m, held, holders, pooled, made, sink, res, mutex, cache, file, inmap, lit, nextid, ids, tmpid>>
 
 \* ReleaseBuffer: err = b.Flush(); bufferPool.Put(b)      ("putfirst": the other way round)
 FlushTo(b) == LET w == buf[b].w
@@ -151,26 +211,27 @@ Flush(g) ==
        /\ buf' = [buf EXCEPT ![held[g]].data = <<>>]
        /\ res' = [res EXCEPT ![R(g)] = IF f.err THEN "err" ELSE "nil"]
     /\ IF Bug = "putfirst"
-       THEN /\ holders' = HDrop(holders, R(g), held[g]) /\ held' = [held EXCEPT ![g] = 0] /\ Goto(g, "end")
-       ELSE /\ holders' = HDrop(holders, R(g), held[g]) /\ UNCHANGED held /\ Goto(g, "put")
-    /\ UNCHANGED <<m, i, pooled, made, mutex, cache, file, inmap, lit, nextid, ids, tmpid>>
+       THEN /\ holders' = HDrop(holders, R(g), BufObj(held[g])) /\ held' = [held EXCEPT ![g] = 0] /\ Goto(g, "end")
+       ELSE /\ holders' = HDrop(holders, R(g), BufObj(held[g])) /\ UNCHANGED held /\ Goto(g, "put")
+    /\ UNCHANGED <<sheld, smade, scr, m, i, pooled, made, mutex, cache, file, inmap, lit, nextid, ids, tmpid>>
 
 Put(g) ==
     /\ pc[g] = IF Bug = "putfirst" THEN "release" ELSE "put"
-    /\ pooled' = PPut(pooled, held[g])
+    /\ pooled' = BPut(pooled, BufObj(held[g]))
     /\ IF Bug = "putfirst"
        THEN Goto(g, "flush2") /\ UNCHANGED held
        ELSE Goto(g, "end") /\ held' = [held EXCEPT ![g] = 0]
-    /\ UNCHANGED <<m, i, holders, made, buf, sink, res, mutex, cache, file, inmap, lit, nextid, ids, tmpid>>
+    /\ UNCHANGED <<sheld, smade, scr, m, i, holders, made, buf, sink, res, mutex, cache, file, inmap, lit, nextid, ids, tmpid>>
 
 \* Render returns; the goroutine starts its next render
 EndRender(g) ==
     /\ pc[g] = "end"
     /\ IF m[g] < M THEN m' = [m EXCEPT ![g] = @ + 1] /\ Goto(g, "get")
                    ELSE UNCHANGED m /\ Goto(g, "done")
-    /\ UNCHANGED <<i, held, holders, pooled, made, buf, sink, res, mutex, cache, file, inmap, lit, nextid, ids, tmpid>>
+    /\ UNCHANGED <<sheld, smade, scr, i, held, holders, pooled, made, buf, sink, res, mutex, cache, file, inmap, lit, nextid, ids, tmpid>>
 
-Next == \/ \E g \in G : \/ NewHandle(g) \/ NewHandle2(g) \/ Get(g) \/ Reset(g) \/ CacheLock(g) \/ CacheLookup(g)
+Next == \/ \E g \in G : \/ NewHandle(g) \/ NewHandle2(g) \/ Get(g) \/ Reset(g) \/ SGet(g) \/ SAdd(g) \/ SRead(g) \/ SPut(g) \/ SPut2(g)
+                        \/ CacheLock(g) \/ CacheLookup(g)
                         \/ CacheDecide(g) \/ CacheUnlock(g) \/ Write(g) \/ Flush(g) \/ Put(g) \/ EndRender(g)
         \/ FileWrite
 
@@ -179,14 +240,16 @@ Spec == Init /\ [][Next]_vars
 -----------------------------------------------------------------------------
 IsPrefix(s, t) == Len(s) <= Len(t) /\ SubSeq(t, 1, Len(s)) = s
 
-\* C14: no buffer object is owned by two renders at once; pooled objects are not in use
-ExclusiveBuffer == Exclusive(holders) /\ PooledUnheld(holders, pooled)
+\* C14: no pooled object (of any kind) is owned by two renders at once; objects in a pool are not in use
+ExclusiveBuffer == Exclusive(holders) /\ BagUnheld(holders, pooled)
 
 \* C14: every render's writer receives its own document (a prefix while running or when it failed), nothing else
 Isolated == \A r \in Render :
                /\ IsPrefix(Strip(sink[r]), Doc(r))
                /\ res[r] = "nil" => Strip(sink[r]) = Doc(r)
                /\ res[r] = "err" => r = FailAt
+               \* what a render read back from its scratch object is its own data only
+               /\ \A k \in 1..Len(sink[r]) : sink[r][k][3] = 0 => sink[r][k][4] = {r}
 
 \* C14: the cache map is only touched by the holder of watchStateMutex
 MutexProtectsCache == /\ Cardinality(inmap) <= 1
@@ -197,6 +260,7 @@ LiteralsAreAVersion == \A g \in G : lit[g] \in 0..file
 \* once-handle ids are unique
 UniqueIds == \A a, b \in 1..Len(ids) : a # b => ids[a] # ids[b]
 
-TypeOK == /\ pooled \subseteq Bufs /\ made \in 0..NBuf
+TypeOK == /\ \A o \in Obj : pooled[o] \in 0..2
+          /\ made \in 0..NBuf /\ smade \in 0..NBuf
           /\ \A g \in G : held[g] \in 0..NBuf
 =============================================================================
